@@ -15,3 +15,51 @@ package action
 //@   loop 1 invariant [count] len(keep) + len(remaining) == #iter
 //@   loop 1 invariant [keep] forall i int :: 0 <= i && i < len(keep) ==> keepPolicy(keep[i])
 //@   loop 1 invariant [rem] forall i int :: 0 <= i && i < len(remaining) ==> !keepPolicy(remaining[i])
+
+// ---- C07: ownership predicate and stamping (validate.go)
+
+//@ ghost func owned(obj runtime.Object, name string, ns string) bool = has(objLabels[obj], appManagedByLabel) && objLabels[obj][appManagedByLabel] == appManagedByHelm && has(objAnnos[obj], helmReleaseNameAnnotation) && objAnnos[obj][helmReleaseNameAnnotation] == name && has(objAnnos[obj], helmReleaseNamespaceAnnotation) && objAnnos[obj][helmReleaseNamespaceAnnotation] == ns
+
+//@ func requireValue
+//@   props C07
+//@   ensures [iff] (result == nil) <==> (has(meta, k) && meta[k] == v)
+
+//@ func checkOwnership
+//@   props C07
+//@   ensures [iff] (result == nil) <==> (accessible(obj) && owned(obj, releaseName, releaseNamespace))
+//@   ensures [readonly] objLabels == old(objLabels) && objAnnos == old(objAnnos)
+//@   loop 1 invariant err != nil
+
+//@ func mergeStrStrMaps
+//@   props C07
+//@   ensures [fresh] fresh(result) && result != nil
+//@   ensures [dom] forall k string :: has(result, k) <==> (has(current, k) || has(desired, k))
+//@   ensures [desired-wins] forall k string :: has(desired, k) ==> result[k] == desired[k]
+//@   ensures [current-kept] forall k string :: has(current, k) && !has(desired, k) ==> result[k] == current[k]
+//@   loop 1 invariant result != nil && fresh(result)
+//@   loop 1 invariant forall k string :: has(result, k) <==> #done[k]
+//@   loop 1 invariant forall k string :: #done[k] ==> has(current, k) && result[k] == current[k]
+//@   loop 2 invariant result != nil && fresh(result)
+//@   loop 2 invariant forall k string :: has(result, k) <==> (has(current, k) || #done[k])
+//@   loop 2 invariant forall k string :: #done[k] ==> has(desired, k) && result[k] == desired[k]
+//@   loop 2 invariant forall k string :: has(current, k) && !#done[k] ==> result[k] == current[k]
+
+//@ func mergeLabels
+//@   props C07
+//@   ensures [stamped] result == nil ==> forall k string :: has(labels, k) ==> has(objLabels[obj], k) && objLabels[obj][k] == labels[k]
+//@   ensures [kept] result == nil ==> forall k string :: has(old(objLabels)[obj], k) && !has(labels, k) ==> has(objLabels[obj], k) && objLabels[obj][k] == old(old(objLabels)[obj][k])
+//@   ensures [annos-untouched] objAnnos == old(objAnnos)
+//@   ensures [allocated] result == nil ==> allocated(objLabels[obj]) && objLabels[obj] != nil
+
+//@ func mergeAnnotations
+//@   props C07
+//@   ensures [stamped] result == nil ==> forall k string :: has(annotations, k) ==> has(objAnnos[obj], k) && objAnnos[obj][k] == annotations[k]
+//@   ensures [labels-untouched] objLabels == old(objLabels)
+//@   ensures [allocated] result == nil ==> allocated(objAnnos[obj]) && objAnnos[obj] != nil
+
+//@ func setMetadataVisitor$1
+//@   props C07
+//@   requires info != nil
+//@   ensures [stamped] result == nil ==> owned(info.Object, releaseName, releaseNamespace)
+//@   ensures [no-takeover] result == nil && !force ==> old(owned(info.Object, releaseName, releaseNamespace))
+//@   ensures [error-passthrough] err != nil ==> result == err
